@@ -2,9 +2,11 @@
    Only statements closed by [exact]; proofs live in proof/FilerNS*.v.
    Model: model/FilerNS.v (Filer.CreateEntry/UpdateEntry/DeleteEntryMetaAndData and
    FilerServer.AtomicRenameEntry over a flat store without transactions, as in the
-   leveldb family), with the own-subtree check of AtomicRenameEntry in place. *)
+   leveldb family), with the own-subtree check of AtomicRenameEntry in place; model/FilerNSRaw.v:
+   the request layer of AtomicRenameEntry on the raw strings (path.Clean of the directories, refusal
+   of names that are not plain entry names, CanRename across buckets) and the narrow trigger. *)
 From Coq Require Import List NArith Bool String Permutation.
-From SW Require Import model.FilerNS proof.FilerNSProofs.
+From SW Require Import model.FilerNS model.FilerNSRaw proof.FilerNSProofs.
 Import ListNotations.
 
 (* ---------- every entry's ancestors exist and are directories: FULL ---------- *)
@@ -20,6 +22,11 @@ Print Assumptions c18_wellformed_step.
 Theorem c18_wellformed : forall ops, wf (final [] ops) /\ Forall (fun sr => wf (fst sr)) (run [] ops).
 Proof. exact (fun ops => conj (final_wf ops [] wf_nil) (run_wf ops [] wf_nil)). Qed.
 Print Assumptions c18_wellformed.
+
+(* the same over histories whose renames are RAW requests (any strings as directories and names) *)
+Theorem c18_wellformed_raw : forall xs, wf (xfinal [] xs) /\ Forall (fun sr => wf (fst sr)) (xrun [] xs).
+Proof. exact (fun xs => conj (xfinal_wf xs [] wf_nil) (xrun_wf xs [] wf_nil)). Qed.
+Print Assumptions c18_wellformed_raw.
 
 (* what the invariant says: ALL ancestors of an entry, not only its parent *)
 Theorem c18_ancestors_exist_and_are_directories : forall s, wf s -> forall a r e,
@@ -60,6 +67,45 @@ Theorem c18_rename_into_own_subtree_refused : forall s od on nd nn,
   is_prefix (child od on) nd = true -> rename s od on nd nn = (s, EInvalid).
 Proof. exact rename_into_own_subtree_refused. Qed.
 Print Assumptions c18_rename_into_own_subtree_refused.
+
+(* the same on the RAW request, over the normalised paths: however the two directories are spelled
+   (doubled or trailing '/', '.', '..', no leading '/') and whatever the names are, a request whose
+   cleaned target directory is the cleaned source path or lies below it changes nothing *)
+Theorem c18_rename_raw_into_own_subtree_refused : forall s od on nd nn,
+  is_prefix (child (clean_dir od) on) (clean_dir nd) = true -> rename_raw s od on nd nn = (s, EInvalid).
+Proof. exact rename_raw_into_own_subtree_refused. Qed.
+Print Assumptions c18_rename_raw_into_own_subtree_refused.
+
+(* a name that is not a plain entry name ("", ".", "..", or containing '/') is refused: it can not
+   put the target below the source behind the back of the directory comparison
+   (before the repair 4bdf6264:  mv /a -> "/" + "a/b"  recursed without end) *)
+Theorem c18_rename_raw_bad_name_refused : forall s od on nd nn,
+  valid_name on && valid_name nn = false -> rename_raw s od on nd nn = (s, EInvalid).
+Proof. exact rename_raw_bad_name_refused. Qed.
+Print Assumptions c18_rename_raw_bad_name_refused.
+
+Theorem c18_rename_raw_slash_name_refused : forall s od on nd nn,
+  has_slash on = true \/ has_slash nn = true -> rename_raw s od on nd nn = (s, EInvalid).
+Proof. exact rename_raw_slash_name_refused. Qed.
+Print Assumptions c18_rename_raw_slash_name_refused.
+
+(* Filer.CanRename: no move from one bucket into another *)
+Theorem c18_rename_raw_cross_bucket_refused : forall s od on nd nn,
+  can_rename (clean_dir od) (clean_dir nd) = false -> rename_raw s od on nd nn = (s, EInvalid).
+Proof. exact rename_raw_cross_bucket_refused. Qed.
+Print Assumptions c18_rename_raw_cross_bucket_refused.
+
+(* every other request IS the rename of the normalised request, whose directories are lists of plain
+   names: all rename theorems below apply to it *)
+Theorem c18_rename_raw_is_rename_of_normalised_request : forall s od on nd nn,
+  valid_name on = true -> valid_name nn = true -> can_rename (clean_dir od) (clean_dir nd) = true ->
+  rename_raw s od on nd nn = rename s (clean_dir od) on (clean_dir nd) nn.
+Proof. exact rename_raw_valid. Qed.
+Print Assumptions c18_rename_raw_is_rename_of_normalised_request.
+
+Theorem c18_clean_dir_segments_are_plain_names : forall d, Forall (fun n => valid_name n = true) (clean_dir d).
+Proof. exact clean_dir_valid. Qed.
+Print Assumptions c18_clean_dir_segments_are_plain_names.
 
 (* ---------- a rename moves the whole subtree without loss or duplication ----------
    FULL statement: for every well-formed s and every rename not into its own subtree that
@@ -128,6 +174,24 @@ Theorem c18_no_type_flip_partial : forall s o q a b, wf s -> op_trigger s o = fa
 Proof. exact step_no_type_flip. Qed.
 Print Assumptions c18_no_type_flip_partial.
 
+(* the FULL statement (no trigger hypothesis) is REFUTED by the code as it is (known finding 0,
+   third witness): with directory /a/b/a and file /a/b/b/a,  mv /a/b -> /a  fails with ENotEmpty
+   and leaves the FILE at /a/b/a *)
+Theorem c18_no_type_flip_refuted :
+  exists s od on nd nn q a b,
+    wf s /\ is_prefix (child od on) nd = false /\ rename_trigger_n s od on nd nn = true /\
+    q <> [] /\ find s q = Some a /\ find (fst (rename s od on nd nn)) q = Some b /\ e_dir b <> e_dir a.
+Proof. exact rename_onto_ancestor_flips_type. Qed.
+Print Assumptions c18_no_type_flip_refuted.
+
+(* the witnesses of the two other refutations lie inside the NARROW trigger used by the check
+   (target an ancestor of the source, or a type conflict at a common relative path) *)
+Theorem c18_witnesses_inside_narrow_trigger :
+  rename_trigger_n w_lost ["a"%string] "a"%string [] "a"%string = true /\
+  rename_trigger_n w_half [] "a"%string [] "b"%string = true.
+Proof. exact witnesses_inside_narrow_trigger. Qed.
+Print Assumptions c18_witnesses_inside_narrow_trigger.
+
 (* ---------- the model against the reference namespace used as the property oracle ----------
    every history that never meets the trigger does, step by step, exactly what the declarative
    reference (ref_create / ref_update / ref_delete / ref_rename) says: same error class, same map *)
@@ -141,6 +205,14 @@ Theorem c18_step_refines_reference_partial : forall s o, wf s -> op_trigger s o 
 Proof. exact step_ref. Qed.
 Print Assumptions c18_step_refines_reference_partial.
 
+Theorem c18_rename_raw_refines_reference_partial : forall s od on nd nn, wf s ->
+  valid_name on && valid_name nn && can_rename (clean_dir od) (clean_dir nd) &&
+    rename_trigger s (clean_dir od) on (clean_dir nd) nn = false ->
+  exists se, ref_rename_raw s od on nd nn = Some (se, snd (rename_raw s od on nd nn)) /\
+             equiv (fst (rename_raw s od on nd nn)) se.
+Proof. exact rename_raw_ref. Qed.
+Print Assumptions c18_rename_raw_refines_reference_partial.
+
 (* ---------- non-vacuity ---------- *)
 (* a history with nested directories, two directory renames (one creating the missing ancestors
    of its target), a file rename, and both kinds of delete never meets the trigger, succeeds
@@ -153,6 +225,7 @@ Example c18_example_history :
      (["x"; "y"; "z"]%string, implicit_dir (wF 1)); (["x"; "y"; "z"; "a"]%string, wF 1);
      (["x"; "y"; "z"; "x"]%string, wF 3)] = true.
 Proof. exact ex_history_outside_trigger. Qed.
+Print Assumptions c18_example_history.
 
 (* the hypotheses of the partial rename theorems hold for a directory with children *)
 Example c18_example_rename :
@@ -161,3 +234,46 @@ Example c18_example_rename :
   snd (rename s ["a"]%string "b"%string []%list "c"%string) = OK /\
   child ["a"]%string "b"%string <> child []%list "c"%string.
 Proof. exact ex_rename_hypotheses. Qed.
+Print Assumptions c18_example_rename.
+
+(* raw requests: the spellings tried by the audit are refused, a valid unclean one moves the entry *)
+Example c18_example_raw_requests :
+  let s := final [] [Create ["a"; "x"]%string (wF 1) false] in
+  rename_raw s "/" "a" "/" "a/b" = (s, EInvalid) /\
+  rename_raw s "/" "a" "//a" "b" = (s, EInvalid) /\
+  rename_raw s "/" "a" "/a/../a/./" "b" = (s, EInvalid) /\
+  rename_raw s "/a" "" "/a/x2" "y" = (s, EInvalid) /\
+  rename_raw s "/" "a" "/buckets/c" "a" = (s, EInvalid) /\
+  clean_dir "//a/./b/../c/" = ["a"; "c"]%string /\ clean_dir "/../.." = [] /\ clean_dir "" = [] /\
+  snd (rename_raw s "//a/" "x" "/b/../c" "y") = OK /\
+  find (fst (rename_raw s "//a/" "x" "/b/../c" "y")) ["c"; "y"]%string = Some (wF 1).
+Proof. exact ex_raw_requests. Qed.
+Print Assumptions c18_example_raw_requests.
+
+(* the failing-rename hypothesis of c18_rename_all_or_nothing_partial: a directory onto a file *)
+Example c18_example_rename_fails_outside_trigger :
+  let s := final [] [Create ["a"; "x"]%string (wF 1) false; Create ["b"]%string (wF 2) false] in
+  wf s /\ rename_trigger s [] "a"%string [] "b"%string = false /\
+  snd (rename s [] "a"%string [] "b"%string) = EIsFile.
+Proof. exact ex_rename_fails_outside_trigger. Qed.
+Print Assumptions c18_example_rename_fails_outside_trigger.
+
+(* the hypotheses of the delete theorems *)
+Example c18_example_delete :
+  let s := final [] [Create ["a"; "b"; "x"]%string (wF 1) false; Create ["c"]%string (wF 2) false] in
+  wf s /\ find s ["a"]%string = Some (implicit_dir (wF 1)) /\ has_children s ["a"]%string = true /\
+  delete_entry s ["a"]%string false false = (s, ENotEmpty) /\
+  snd (delete_entry s ["a"]%string true false) = OK /\
+  keys (fst (delete_entry s ["a"]%string true false)) = [["c"]%string].
+Proof. exact ex_delete_hypotheses. Qed.
+Print Assumptions c18_example_delete.
+
+(* the hypotheses of c18_no_type_flip_partial *)
+Example c18_example_no_flip :
+  let s := final [] [Create ["a"; "x"]%string (wF 1) false; Create ["b"; "x"]%string (wF 2) false] in
+  let o := Rename [] "a"%string [] "c"%string in
+  wf s /\ op_trigger s o = false /\
+  find s ["b"; "x"]%string = Some (wF 2) /\ find (fst (step s o)) ["b"; "x"]%string = Some (wF 2) /\
+  snd (step s (Update ["a"; "x"]%string (wD 9))) = EIsFile.
+Proof. exact ex_no_flip_hypotheses. Qed.
+Print Assumptions c18_example_no_flip.
